@@ -37,6 +37,10 @@ func c09(tier string) []*explore.Scenario {
 				if tier == "thorough" || k <= 1 {
 					out = append(out, c09One(load, k, wf, 0, b))
 				}
+				// the error value the transport's read fails with (what net.Conn-like transports return)
+				for _, ev := range []string{"eof", "wrapped-eof", "unexpected-eof", "canceled", "deadline"} {
+					out = append(out, c09OneE(load, k, wf, 64, b-1, ev))
+				}
 			}
 		}
 	}
@@ -44,15 +48,32 @@ func c09(tier string) []*explore.Scenario {
 }
 
 func c09One(load string, k int, writeFails bool, capn, bound int) *explore.Scenario {
+	return c09OneE(load, k, writeFails, capn, bound, "")
+}
+
+var c09Errs = map[string]error{
+	"eof":            io.EOF,
+	"wrapped-eof":    fmt.Errorf("read tcp: %w", io.EOF),
+	"unexpected-eof": io.ErrUnexpectedEOF,
+	"canceled":       context.Canceled,
+	"deadline":       context.DeadlineExceeded,
+}
+
+func c09OneE(load string, k int, writeFails bool, capn, bound int, errv string) *explore.Scenario {
 	l := c09Loads[load]
 	fam := "C09/readfail"
+	name := fmt.Sprintf("C09/%s/failafter=%d/writefails=%v/cap=%d", load, k, writeFails, capn)
+	if errv != "" {
+		name += "/err=" + errv
+	}
 	return &explore.Scenario{
-		Name:   fmt.Sprintf("C09/%s/failafter=%d/writefails=%v/cap=%d", load, k, writeFails, capn),
+		Name:   name,
 		Family: fam, Prop: "C09", Bound: bound,
 		Run: func() {
 			w := env.NewWorld()
 			d := env.NewDirect(w, env.DirectOpts{Pipe: env.PipeOpts{Cap: capn}})
 			d.Pipe.A.ReadFailAfter = k
+			d.Pipe.A.ReadFailErr = c09Errs[errv]
 			d.Pipe.A.WriteFailsWithRead = writeFails
 			vsched.Settle()
 			vsched.Explore(true)
@@ -104,7 +125,9 @@ func c09One(load string, k int, writeFails bool, capn, bound int) *explore.Scena
 					if r.CErr == nil && r.COpenErr == nil {
 						vsched.Fail(fam+"|no-terminal", "stream %s finished its program without a terminal result", r.Tag)
 					}
-					if r.CErr == io.EOF && (!r.HReturned || r.HRet != nil || !eqStrs(r.CRecv, r.HSent)) {
+					// (io.EOF means "ended successfully" only as the result of a receive on an open
+					// stream; a failed open is a failure whatever error value it carries)
+					if r.COpenErr == nil && r.CErr == io.EOF && (!r.HReturned || r.HRet != nil || !eqStrs(r.CRecv, r.HSent)) {
 						vsched.Fail(fam+"|fabricated", "stream %s reports a clean end but the handler did not complete / messages are missing: %s", r.Tag, r.Summary())
 					}
 					if !isPrefix(r.CRecv, r.HSent) {
@@ -117,7 +140,7 @@ func c09One(load string, k int, writeFails bool, capn, bound int) *explore.Scena
 					if r.CDone && r.CErr == nil {
 						vsched.Fail(fam+"|late-call-succeeded", "call %s started after the read failure did not fail", r.Tag)
 					}
-					if r.CDone && r.CErr == io.EOF {
+					if r.CDone && r.Kind != "Unary" && r.COpenErr == nil && r.CErr == io.EOF {
 						vsched.Fail(fam+"|late-call-succeeded", "stream %s started after the read failure ended cleanly", r.Tag)
 					}
 				}
